@@ -376,14 +376,15 @@ class XMLParserMixin(
         if ref in ("34", "38", "39", "60", "62", "x22", "x26", "x27", "x3c", "x3e"):
             text = "&#%s;" % ref
         else:
-            if ref[0] == "x":
-                c = int(ref[1:], 16)
-            else:
-                c = int(ref)
             try:
+                if ref[0] == "x":
+                    c = int(ref[1:], 16)
+                else:
+                    c = int(ref)
                 text = chr(c).encode("utf-8")
             except (ValueError, OverflowError):
-                # surrogates and values beyond U+10FFFF are not characters
+                # surrogates, values beyond U+10FFFF and digit strings that
+                # int() refuses (more than 4300 digits) are not characters
                 text = "\ufffd".encode("utf-8")
         self.elementstack[-1][2].append(text)
 
